@@ -7,7 +7,10 @@ from .c16 import writers_of_field, field_index
 RULE = ("(R0) who-writes(JitterRng.data) is exactly the frozen set; for each writer the new pool value, value-numbered with constant loops "
         "unrolled, must be GF(2)-affine in the old pool value with a 64x64 matrix of rank 64 for every fixed value of the other inputs "
         "(R1: LFSR fold, also rank 64 in the 64-bit time value for a fixed pool; R2: rotation on the accept path; R3: stir_pool), or the "
-        "identity (next_u32 storing the value gen_entropy just produced)")
+        "identity (next_u32 storing the value gen_entropy just produced). The pool is followed through summarised loops: a loop "
+        "variable in the pool's location must start one-to-one from the enclosing pool, be updated one-to-one per iteration, and no "
+        "branch, continuation or exit condition on the way may mention the pool (a pool-dependent choice or number of one-to-one "
+        "steps is not one-to-one)")
 TRUSTED = ["rustc nightly MIR", "primitive table (vf/prims.py)", "GF(2) rank computation (vf/alg.py)"]
 
 WRITERS = {"rand_jitter::JitterRng::<F>::new_with_timer", "<rand_jitter::JitterRng<F> as core::clone::Clone>::clone",
@@ -92,7 +95,7 @@ def run(chk, tier):
             continue
         post = st.objs[args[0].obj].fields[iD]
         rule = {"lfsr_time": "R1", "measure_jitter": "R2", "stir_pool": "R3", "next_u32": "R0"}[short]
-        check_bijective(chk, rule, short, pre, post, body["span"][0], ev, st)
+        check_bijective(chk, rule, short, pre, post, body["span"][0], ev, st, (args[0].obj, ("f", iD)))
     chk.trusted_base = TRUSTED
 
 
@@ -108,35 +111,112 @@ def branches(t, acc=None, conds=()):
     return acc
 
 
-def source_pool(t, pre, depth=0):
-    """the atom that plays the role of the old pool value in t: `pre` itself, or a value that is itself
-    derived bijectively from it (e.g. the pool after a loop / an inlined call, as a loop variable)"""
-    return pre
+class PoolFlow(object):
+    """decides that a term is a one-to-one function of the old pool value for every fixed value of everything else,
+    following the pool through summarised loops:
+      * every leaf of the ite tree is GF(2)-affine in exactly one pool-standing atom with a 64x64 matrix of rank 64
+        (or is that atom itself), and nothing else in the leaf mentions the pool;
+      * no branch condition mentions the pool (two one-to-one maps selected by the pool need not be one-to-one together);
+      * a loop variable that carries pool information stands for the pool only if its initial value derives one-to-one from
+        the enclosing pool value, its value after one more iteration derives one-to-one from itself, and no continuation
+        or exit condition of that loop mentions the pool (a pool-dependent number of one-to-one steps is not one-to-one)."""
+
+    def __init__(self, ev, pre, pool_loc):
+        self.pre = pre
+        self.allvars = {}
+        for rec in ev.loops_log:
+            for n, wh, init, t, rng in rec.vars:
+                if isinstance(t, T.T) and t.op in ("sym", "rng"):
+                    self.allvars[t] = (rec, n, init)
+        # loop variables that carry pool information: initial value or value after an iteration mentions the pool (closure)
+        self.names = set(T.atoms_of(pre))
+        changed = True
+        while changed:
+            changed = False
+            for t, (rec, n, init) in self.allvars.items():
+                if n in self.names:
+                    continue
+                srcs = [init] + [c[1].get(n) for c in rec.conts]
+                if any(isinstance(x, T.T) and (T.atoms_of(x) & self.names) for x in srcs):
+                    self.names.add(n)
+                    changed = True
+        self.vars = {t: v for t, v in self.allvars.items() if v[1] in self.names}
+        self.loop_ok = {}
+        self.ranks = []
+
+    def mentions_pool(self, t):
+        return isinstance(t, T.T) and bool(T.atoms_of(t) & self.names)
+
+    def derive(self, term, targets, depth=0):
+        """-> None if term derives one-to-one from one of `targets`, else a message"""
+        if depth > 12:
+            return "loop nesting too deep"
+        for conds, leaf in branches(term):
+            for c in conds:
+                if self.mentions_pool(c):
+                    return "branch condition %s depends on the pool" % T.show(c, 2)
+            if any(leaf is t for t in targets):
+                continue
+            if not isinstance(leaf, T.T) or leaf.w != 64:
+                return "pool is not a 64-bit value: %r" % (leaf,)
+            c, e = T.aff_parts(leaf)
+            cands = [a for a in e if any(a is t for t in targets) or a in self.vars]
+            for o in e:
+                if o not in cands and self.mentions_pool(o):
+                    return "new pool value %s depends on the pool outside its affine part (%s)" % (T.show(leaf, 2), T.show(o, 2))
+            if len(cands) != 1:
+                return "new pool value %s is not an affine function of one old pool value" % T.show(leaf, 3)
+            a = cands[0]
+            rows, consts, bad = T.linear_rows([T.mk_aff(64, 0, {a: e[a]})], [a])
+            rk = alg.rank(rows)
+            self.ranks.append(rk)
+            if rk != 64:
+                return "rank %d of the 64x64 matrix on %s" % (rk, T.show(a, 1))
+            if any(a is t for t in targets):
+                continue
+            rec, n, init = self.vars[a]
+            msg = self.valid_loop(a, depth)
+            if msg:
+                return msg
+            if not isinstance(init, T.T):
+                return "loop variable %s has no scalar initial value" % n
+            msg = self.derive(init, targets, depth + 1)
+            if msg:
+                return "initial value of %s: %s" % (n, msg)
+        return None
+
+    def valid_loop(self, a, depth):
+        if a in self.loop_ok:
+            return self.loop_ok[a]
+        rec, n, init = self.vars[a]
+        self.loop_ok[a] = None  # a loop variable may refer to itself
+        msg = None
+        fn = rec.body.split("::")[-1]
+        for cond, nxt, world, assume in rec.conts:
+            if self.mentions_pool(cond):
+                msg = "loop in %s: the continuation condition %s depends on the pool, so the number of pool updates does" % (fn, T.show(cond, 2))
+                break
+            v = nxt.get(n)
+            if not isinstance(v, T.T):
+                msg = "loop in %s: pool after one iteration is not a scalar" % fn
+                break
+            m = self.derive(v, [a], depth + 1)
+            if m:
+                msg = "loop in %s, pool after one more iteration: %s" % (fn, m)
+                break
+        if msg is None:
+            for cond, how, at in rec.exits:
+                if self.mentions_pool(cond):
+                    msg = "loop in %s: the exit condition %s depends on the pool, so the number of pool updates does" % (fn, T.show(cond, 2))
+                    break
+        self.loop_ok[a] = msg
+        return msg
 
 
-def check_bijective(chk, rule, short, pre, post, where, ev, st):
-    n = 0
-    for conds, leaf in branches(post):
-        n += 1
-        label = "%s|pool update on path %d" % (short, n)
-        if leaf is pre:
-            chk.ob(rule, label + " is the identity", True, "", where=where, nontrivial=False)
-            continue
-        if not isinstance(leaf, T.T) or leaf.w != 64:
-            chk.ob(rule, label, False, "pool is not a 64-bit value: %r" % (leaf,), where=where)
-            continue
-        c, e = T.aff_parts(leaf)
-        # the pool atom: pre, or (inside summarised loops / after opaque effects) the single 64-bit atom standing for the pool
-        cands = [a for a in e if a is pre]
-        if not cands:
-            cands = [a for a in e if a.w == 64 and a.op in ("sym", "rng", "res") and ("data" in str(a.aux) or a.op != "sym")]
-        if len(cands) != 1:
-            chk.ob(rule, label, False, "new pool value %s is not an affine function of one old pool value" % T.show(leaf, 3), where=where)
-            continue
-        a = cands[0]
-        rows, consts, bad = T.linear_rows([T.mk_aff(64, 0, {a: e[a]})], [a])
-        rk = alg.rank(rows)
-        others = [T.show(x, 1) for x in e if x is not a]
-        chk.ob(rule, label + " is one-to-one in the old pool (rank 64)", rk == 64,
-               "rank %d of the 64x64 matrix on %s%s" % (rk, T.show(a, 1), ("; other inputs: %s" % others[:3]) if others else ""), where=where,
-               sample={"writer": short, "rank": rk, "other_inputs": others[:3]})
+def check_bijective(chk, rule, short, pre, post, where, ev, st, pool_loc):
+    pf = PoolFlow(ev, pre, pool_loc)
+    msg = pf.derive(post, [pre])
+    nleaves = len(branches(post))
+    chk.ob(rule, "%s|new pool value is one-to-one in the old pool (every path, through %d pool-carrying loop variable(s))" % (short, len(pf.vars)),
+           msg is None, msg or "", where=where,
+           sample={"writer": short, "paths": nleaves, "ranks": sorted(set(pf.ranks)), "pool_carrying_loops": len(pf.vars)})
